@@ -769,6 +769,10 @@ func (c *wsConn) handleWsConn(ctx context.Context) {
 	c.registerCh = make(chan outChanReg)
 	defer verifYield("exit.exiting-closed", c)
 	defer close(c.exiting)
+	// cancel the connection context before signalling that we have exited:
+	// the reconnect goroutine must not start another dial once a closer
+	// waiting on c.exiting has returned
+	defer cancel()
 
 	// ////
 
